@@ -211,6 +211,14 @@ func (t *hTags) tag(b []byte) int {
 }
 func (t *hTags) lookup(b []byte) (int, bool) { v, ok := t.m[string(b)]; return v, ok }
 
+// lookupNode: the tag of a node an implementation call returned; a nil node (which no call should return) has no tag.
+func (t *hTags) lookupNode(n *enode.Node) (int, bool) {
+	if n == nil {
+		return 0, false
+	}
+	return t.lookup(hEnrBytes(n))
+}
+
 // hRecStr prints the abstract record of a node.
 func hRecStr(tag int, n *enode.Node, size int, valid bool) string {
 	v := 0
